@@ -294,6 +294,7 @@ impl BroCatli {
                 if out_bytes.len() > *out_offset {
                     out_bytes[*out_offset] = self.last_bytes[0];
                     self.last_bytes[0] = self.last_bytes[1];
+                    self.last_bytes[1] = 0; // nothing is left in the second byte
                     *out_offset += 1;
                     self.any_bytes_emitted = true;
                     index -= 8;
@@ -566,7 +567,10 @@ impl BroCatli {
         self.last_byte_bit_offset += 2;
         if self.last_byte_bit_offset >= 8 {
             self.last_byte_bit_offset -= 8;
-            self.last_bytes_len += 1;
+            if self.last_byte_bit_offset != 0 {
+                // only a marker that reaches into the next byte adds a byte
+                self.last_bytes_len += 1;
+            }
         }
     }
     pub fn finish(&mut self, out_bytes: &mut [u8], out_offset: &mut usize) -> BroCatliResult {
